@@ -1,14 +1,39 @@
 """C48 — compilation caches never return stale results."""
-from ..rules import keys
+from ..rules import sC48
 
 ID = 'C48'
-TECHNIQUE = 'cache-key completeness by def-use (parameter-to-sink) closure and decision-chain extraction; path-sensitive guard check on dependency memoisation'
-DECIDES = ('K1: every CompilationOptions key is included in get_fingerprint (or rejected), or excluded and output-neutral, unknown keys default to included; '
-           'K1b: transitive_fingerprint hashes the Cython version, the source, every non-C dependency, the build flags and the options; '
-           'K2: every parameter of cython.inline() that reaches the cythonize()/Extension() build reaches every _inline_key() call, and the key text is the unstripped source; '
-           'DEP1: the transitive dependency set (which feeds the fingerprint) is memoised only outside open cimport cycles and merged without mutation.')
-NOT_DECIDED = 'that dependency *discovery* finds every file the compiler reads; known finding K3: the inline key has no digest of cimported files / include directories.'
+TECHNIQUE = ('cache-key completeness: the option chain of get_fingerprint evaluated per option name, def-use closure from parameters and file contents to every sink '
+             '(hash, cache file name, in-process memo, build-skipping guard), typestate of the file-reading loop, decision table of the dependency filter over file extensions, '
+             'interprocedural summaries of DependencyTree, path-sensitive guard check on dependency memoisation')
+DECIDES = ('K1: every CompilationOptions key is included in get_fingerprint with its full value (or rejected), or excluded and output-neutral, unknown keys default to included, no dict is reduced to its keys; '
+           'K1b: transitive_fingerprint hashes the Cython version, the CONTENT (file_hash) of the source and of every dependency except C/C++ files (filter evaluated per extension, loop never left early), the flags and the options, and returns that digest; '
+           'K5: file_hash feeds every chunk it reads to the hash and stops only at end of file; '
+           'K6: the cache file name depends on the fingerprint, and lookup, store and the compile pipeline pass on the fingerprint they were given; '
+           'DEP1: the transitive dependency set is memoised only outside open cimport cycles and merged without mutation; '
+           'DEP2: all_dependencies is transitive and contains the file, the files of its cimports and its includes; every transitive_fingerprint() call gets that set for the same source and the options object in use; '
+           'K2: every parameter of cython.inline() that reaches the cythonize()/Extension() build reaches every _inline_key() call, _inline_key digests each parameter completely plus the compiler version, the key text is the unstripped source; '
+           'K3: the in-process memo of compiled snippets and every name whose presence skips the build depend on all build-affecting parameters.')
+NOT_DECIDED = ('that dependency *discovery* (the regular expressions of parse_dependencies, the search path lookup) finds every file the compiler reads; staleness inside one process through the '
+               'process-wide @cached_function memo of file_hash (the repository\'s own tests call Utils.clear_function_caches()); known finding K3: the inline key has no digest of cimported files.')
+
+MUTATIONS = [
+    # patches and outcomes under /verif/mutants/C48/<name>/
+    ('Cython/Compiler/Options.py', 'opt-cplus-excluded, opt-else-skips, opt-directives-excluded, opt-tofp-keys-only, opt-returns-keys, opt-value-truthiness', 'K1'),
+    ('Cython/Build/Cache.py', 'cache-fp-no-options, cache-fp-only-sources, cache-fp-skip-pxi, cache-fp-first-dep, cache-fp-dep-names', 'K1b'),
+    ('Cython/Build/Cache.py', 'filehash-first-chunk, filehash-size-only, filehash-loop-stale', 'K5'),
+    ('Cython/Build/Cache.py, Cython/Compiler/Main.py', 'fpfile-no-fingerprint, lookup-ignores-fingerprint, main-store-other-fp', 'K6'),
+    ('Cython/Build/Dependencies.py, Cython/Compiler/Main.py', 'deps-fp-immediate-only, main-fp-no-deps, deps-fp-default-options, immdeps-no-includes, immdeps-no-cimports', 'DEP2'),
+    ('Cython/Build/Dependencies.py', 'merge-mutating, memo-in-cycle', 'DEP1'),
+    ('Cython/Build/Inline.py', 'inline-key-stripped, inline-key-no-directives, inline-key-directive-names, inline-key-no-version, inline-key-drops-sigs', 'K2'),
+    ('Cython/Build/Inline.py', 'inline-memo-no-keyhash, inline-modname-short', 'K3'),
+    ('Cython/Build/Dependencies.py', 'deps-included-cimports-dropped, deps-includes-not-collected: NOT reported (dependency discovery, declined)', ''),
+    ('*', 'behaviour preserving, silent: p-opt-chain-sets, p-opt-early-continue, p-opt-tofp-repr-values, p-cache-fp-rewrite, p-filehash-walrus, p-fpfile-fstring, p-flags-drop-pylimited, '
+          'p-immdeps-reordered, p-inline-key-kwargs, p-inline-langlevel-in-directives, p-merge-lambda, p-memo-guard-demorgan', ''),
+]
 
 
+# sC48.rule_fp_final (K8) is NOT registered: it reports Dependencies.cythonize_one:options.embedded_metadata on the unmodified tree,
+# a genuine defect (demonstrated, /tmp/strengthen4/G13/FINDING_1.md)   # pending finding
 def run(ctx):
-    return [keys.rule_K1(ctx), keys.rule_fingerprint_sinks(ctx), keys.rule_K2(ctx), keys.rule_seen_guard(ctx)]
+    return [sC48.rule_K1(ctx), sC48.rule_K1b(ctx), sC48.rule_filehash(ctx), sC48.rule_fp_thread(ctx), sC48.rule_K2(ctx), sC48.rule_K3(ctx),
+            sC48.rule_seen_guard(ctx), sC48.rule_dep_flow(ctx)]
